@@ -163,8 +163,12 @@ def ISIZE_MAX():
 class Spec:
     """one kernel: where to find it, which input invariants to assume, and the obligations per outcome"""
 
-    def __init__(self, key, file_part, method, props, assume=None, on_return=None, on_panic=None, doc="", nth=0, allow_unsupported=False):
+    def __init__(self, key, file_part, method, props, assume=None, on_return=None, on_panic=None, doc="", nth=0, allow_unsupported=False, vec_root="O:vecraw", prelude=None):
         self.key, self.file_part, self.method, self.props = key, file_part, method, props
+        self.vec_root = vec_root
+        # prelude = (file_part, method): the kernel is executed on the *result* of this constructor (arguments n1, n2, ...),
+        # so that the obligations speak about the operation's inputs and not about the handle's private fields
+        self.prelude = prelude
         self.assume, self.on_return, self.on_panic, self.doc, self.nth = assume, on_return, on_panic, doc, nth
 
 
@@ -579,6 +583,147 @@ def spec_drain_drop():
     return Spec("Drain::drop", "src/ops/drain.rs", "drop", ["C02", "C06"], assume, on_return, on_panic, "tail / length arithmetic and ordering of Drain::drop for all 64-bit cursor values")
 
 
+# ---- data movement of the element-wise operations (C01/C05): which bytes move where, for all 64-bit index values
+ES_MAX, N_MAX = 1 << 20, 1 << 40   # stated bound (as for the byte views): element size <= 2^20, counts/indices <= 2^40
+
+
+def _vec_syms(ex, p, root):
+    if root == "O:vecraw":
+        return sym(ex, p, "O:vecraw", ("$base",)), sym(ex, p, "O:vecraw", ("$layout", "size")), sym(ex, p, "O:vecraw", (2,))
+    return sym(ex, p, "O:arg1", (1, "$base")), sym(ex, p, "O:arg1", ("$layout", "size")), sym(ex, p, "O:arg1", (2,))
+
+
+def _mv_bounds(es, *counts):
+    return AND("(bvule %s %s)" % (es, bvconst(ES_MAX)), *["(bvule %s %s)" % (c, bvconst(N_MAX)) for c in counts])
+
+
+def _copy_ob(ex, e, src, dst, nbytes, what):
+    s_, d_, n_ = (ex.as_bv(e[2][k])[1] for k in (0, 1, 2))
+    return (what, AND("(= %s %s)" % (s_, src), "(= %s %s)" % (d_, dst), "(= %s %s)" % (n_, nbytes)))
+
+
+def spec_remove_consume():
+    """Remove::new(ptr, index) ; consume(): stated over the operation's inputs (len, index), not over the handle's fields"""
+    def assume(ex, p):
+        base, es, ln = _vec_syms(ex, p, "O:vecraw")
+        p.decls.setdefault("n2", "(_ BitVec 64)")
+        return [("caller contract (index_check): index < len; bounds: element size <= 2^20, len <= 2^40", AND("(bvult n2 %s)" % ln, _mv_bounds(es, ln)))]
+
+    def on_return(ex, p):
+        base, es, ln = _vec_syms(ex, p, "O:vecraw")
+        cps = events(p, "copy")
+        obs = [("exactly one block move", "true" if len(cps) == 1 else "false")]
+        if len(cps) == 1:
+            dst = "(bvadd %s (bvmul %s n2))" % (base, es)
+            obs.append(_copy_ob(ex, cps[0], "(bvadd %s %s)" % (dst, es), dst, "(bvmul %s (bvsub (bvsub %s %s) n2))" % (es, ln, bvconst(1)),
+                                "remove(index) shifts exactly the len - 1 - index elements behind the removed one down by one element"))
+            obs.append(("the block move may overlap (ptr::copy / copy_bytes, not copy_nonoverlapping)", "false" if cps[0][4] else "true"))
+        fin = ex.as_bv(ex.read_cell(p, "O:vecraw", (2,), "usize"))[1]
+        obs.append(("len ends as len - 1", "(= %s (bvsub %s %s))" % (fin, ln, bvconst(1))))
+        return obs
+
+    def on_panic(ex, p):
+        return [("never panics for index < len", "false")]
+    return Spec("Remove::new+consume", "src/ops/remove.rs", "consume", ["C01", "C05"], assume, on_return, on_panic, "which bytes remove(index) moves, all (len, index) values (typed and erased branch)",
+                prelude=("src/ops/remove.rs", "new"))
+
+
+def spec_swap_remove_consume():
+    def assume(ex, p):
+        base, es, ln = _vec_syms(ex, p, "O:vecraw")
+        p.decls.setdefault("n2", "(_ BitVec 64)")
+        return [("caller contract (index_check): index < len; bounds: element size <= 2^20, len <= 2^40", AND("(bvult n2 %s)" % ln, _mv_bounds(es, ln)))]
+
+    def on_return(ex, p):
+        base, es, ln = _vec_syms(ex, p, "O:vecraw")
+        cps = events(p, "copy")
+        last = "(bvsub %s %s)" % (ln, bvconst(1))
+        lastp = "(bvadd %s (bvmul %s %s))" % (base, es, last)
+        slot = "(bvadd %s (bvmul %s n2))" % (base, es)
+        obs = [("at most one copy", "true" if len(cps) <= 1 else "false")]
+        if len(cps) == 1:
+            obs.append(_copy_ob(ex, cps[0], lastp, slot, es, "swap_remove(index) overwrites slot index with exactly the last element (one element size)"))
+            obs.append(("a copy happens only when the removed element is not the last one", "(not (= n2 %s))" % last))
+        else:
+            obs.append(("no copy only when the removed element is the last one (or elements are zero-sized)", OR("(= n2 %s)" % last, "(= %s %s)" % (es, bvconst(0)))))
+        fin = ex.as_bv(ex.read_cell(p, "O:vecraw", (2,), "usize"))[1]
+        obs.append(("len ends as len - 1", "(= %s %s)" % (fin, last)))
+        return obs
+
+    def on_panic(ex, p):
+        return [("never panics for index < len", "false")]
+    return Spec("SwapRemove::new+consume", "src/ops/swap_remove.rs", "consume", ["C01", "C05"], assume, on_return, on_panic, "which bytes swap_remove(index) moves, all (len, index) values",
+                prelude=("src/ops/swap_remove.rs", "new"))
+
+
+def spec_move_elements_at():
+    def assume(ex, p):
+        base, es, ln = _vec_syms(ex, p, "O:vecraw")
+        for n in ("a2", "a3", "a4"):
+            p.decls.setdefault(n, "(_ BitVec 64)")
+        return [("bounds: element size <= 2^20, indices and count <= 2^40", _mv_bounds(es, "a2", "a3", "a4"))]
+
+    def on_return(ex, p):
+        base, es, ln = _vec_syms(ex, p, "O:vecraw")
+        cps = events(p, "copy")
+        obs = [("exactly one block move", "true" if len(cps) == 1 else "false")]
+        if len(cps) == 1:
+            obs.append(_copy_ob(ex, cps[0], "(bvadd %s (bvmul %s a2))" % (base, es), "(bvadd %s (bvmul %s a3))" % (base, es), "(bvmul %s a4)" % es,
+                                "moves exactly `len` elements from src_index to dst_index"))
+            obs.append(("the block move may overlap", "false" if cps[0][4] else "true"))
+        return obs
+
+    def on_panic(ex, p):
+        return [("never panics within the bounds", "false")]
+    return Spec("move_elements_at", "utils", "move_elements_at", ["C02", "C05"], assume, on_return, on_panic, "tail move of drain/splice")
+
+
+def spec_insert_unchecked(push):
+    def assume(ex, p):
+        base, es, ln = _vec_syms(ex, p, "O:arg1")
+        p.decls.setdefault("a2", "(_ BitVec 64)")
+        return [("bounds: element size <= 2^20, len <= 2^40", _mv_bounds(es, ln))]
+
+    def on_return(ex, p):
+        base0, es, ln = _vec_syms(ex, p, "O:arg1")
+        res, cps, mvs = events(p, "reserve_one"), events(p, "copy"), events(p, "move_into")
+        obs = [("room for one more element is reserved exactly once, before anything is moved", "true" if len(res) == 1 and p.events and p.events[0] is res[0] else "false"),
+               ("the value is moved in exactly once", "true" if len(mvs) == 1 else "false")]
+        base = ex.as_bv(ex.read_cell(p, "O:arg1", (1, "$base"), "usize"))[1]   # the storage pointer *after* reserve_one
+        idx = ln if push else "a2"
+        slot = "(bvadd %s (bvmul %s %s))" % (base, es, idx)
+        if not push:
+            obs.append(("exactly one block move", "true" if len(cps) == 1 else "false"))
+            if len(cps) == 1:
+                obs.append(_copy_ob(ex, cps[0], slot, "(bvadd %s %s)" % (slot, es), "(bvmul %s (bvsub %s %s))" % (es, ln, idx),
+                                    "insert shifts exactly the (len - index) elements from the insertion slot up by one element, using the storage pointer obtained after reserving"))
+                obs.append(("the block move may overlap", "false" if cps[0][4] else "true"))
+                if mvs:
+                    obs.append(("the tail is shifted before the value is written", "true" if p.events.index(cps[0]) < p.events.index(mvs[0]) else "false"))
+        else:
+            obs.append(("push moves no existing element", "true" if not cps else "false"))
+        if len(mvs) == 1:
+            dst, sz = ex.as_bv(mvs[0][2][0])[1], ex.as_bv(mvs[0][2][1])[1]
+            obs.append(("the value is written to slot `index` of the (possibly relocated) storage with the element size", AND("(= %s %s)" % (dst, slot), "(= %s %s)" % (sz, es))))
+            if not push:
+                snap = mvs[0][3]
+                obs.append(("while the value is moved in (user code may run) len is lowered to index: the shifted tail is hidden", "(= %s %s)" % (ex.as_bv(snap)[1], idx) if snap is not None else "false"))
+        fin = ex.as_bv(ex.read_cell(p, "O:arg1", (2,), "usize"))[1]
+        obs.append(("len ends as len + 1", "(= %s (bvadd %s %s))" % (fin, ln, bvconst(1))))
+        if not push:
+            obs.append(("returns only for index <= len", "(bvule a2 %s)" % ln))
+        return obs
+
+    def on_panic(ex, p):
+        base0, es, ln = _vec_syms(ex, p, "O:arg1")
+        if push:
+            return [("never panics within the bounds (reserve_one is summarised as returning)", "false")]
+        return [("panics only for index > len, before anything is changed", AND("(bvugt a2 %s)" % ln, "true" if not p.events else "false"))]
+    name = "push_unchecked" if push else "insert_unchecked"
+    return Spec("AnyVecRaw::" + name, "src/any_vec_raw.rs", name, ["C01", "C05"], assume, on_return, on_panic,
+                "which bytes %s moves and where the value lands, relative to the storage pointer after reserve_one" % name, vec_root="O:arg1")
+
+
 def spec_handle_new(kind):
     """Pop::new / Remove::new / SwapRemove::new / Drain::new: the length is lowered when the handle is created"""
     file_part = {"Pop": "src/ops/pop.rs", "Remove": "src/ops/remove.rs", "SwapRemove": "src/ops/swap_remove.rs", "Drain": "src/ops/drain.rs"}[kind]
@@ -626,7 +771,38 @@ def all_specs():
     return [spec_into_range(), spec_reserve("reserve", "expand"), spec_reserve("reserve_exact", "expand_exact"), spec_shrink("shrink_to"), spec_shrink("shrink_to_fit"),
             spec_index_check(), spec_get("get"), spec_get("get_mut"), spec_drain_drop(),
             spec_handle_new("Pop"), spec_handle_new("Remove"), spec_handle_new("SwapRemove"), spec_handle_new("Drain"), spec_heap_resize(), spec_heap_expand(), spec_stack_build(), spec_stackn_build(), spec_iter_len("len"), spec_iter_len("size_hint"), spec_iter_step("next"), spec_iter_step("next_back"),
-            spec_bytes("as_bytes"), spec_bytes("as_bytes_mut"), spec_bytes("spare_bytes_mut"), spec_heap_from_raw_parts()]
+            spec_bytes("as_bytes"), spec_bytes("as_bytes_mut"), spec_bytes("spare_bytes_mut"), spec_heap_from_raw_parts(),
+            spec_remove_consume(), spec_swap_remove_consume(), spec_move_elements_at(), spec_insert_unchecked(False), spec_insert_unchecked(True)]
+
+
+# the kernels below read handle / chunk fields by position: the field names in declaration order, as they appear in a
+# struct literal somewhere in the MIR dump. If the representation changes, the obligations no longer say what they mean:
+# the kernel is then reported inconclusive (re-anchor the spec) instead of producing verdicts about the wrong fields.
+REPR = {
+    "Drain::drop": ("drain::Drain::<", ["iter", "start", "end", "original_len"]),
+    "Iter::len": ("iter::Iter::<", ["any_vec_ptr", "index", "end", "phantom"]),
+    "Iter::size_hint": ("iter::Iter::<", ["any_vec_ptr", "index", "end", "phantom"]),
+    "Iter::next": ("iter::Iter::<", ["any_vec_ptr", "index", "end", "phantom"]),
+    "Iter::next_back": ("iter::Iter::<", ["any_vec_ptr", "index", "end", "phantom"]),
+    "HeapMem::resize": ("HeapMem {", ["mem", "size", "element_layout"]),
+    "HeapMem::expand": ("HeapMem {", ["mem", "size", "element_layout"]),
+}
+
+
+def repr_problem(spec, text):
+    if spec.key not in REPR:
+        return None
+    marker, want = REPR[spec.key]
+    for line in text.splitlines():
+        k = line.find("= " + marker)
+        if k < 0 or not line.rstrip().endswith("};") or " { " not in line[k:]:
+            continue
+        body = line[line.index(" { ", k) + 3:line.rindex("}")]
+        got = [f.split(":", 1)[0].strip() for f in S.split_top(body)]
+        if got != want:
+            return "representation changed: fields %s, the kernel specification is anchored to %s" % (got, want)
+        return None
+    return "no struct literal `%s ...` found in the MIR dump: cannot confirm the field layout the specification is anchored to" % marker
 
 
 # ------------------------------------------------------------------ running
@@ -640,8 +816,43 @@ def run_spec(spec, fns, mode, solver, cross=None):
         rep["inconclusive"].append("function has a loop: outside this engine")
         return rep
     ex = S.Exec(fn)
+    ex.vec_root = spec.vec_root
+    S.ELEM_PTRS.clear()
     try:
-        paths = ex.run()
+        if spec.prelude is None:
+            paths = ex.run()
+        else:
+            pfn = M.find(fns, spec.prelude[0], spec.prelude[1], 0)
+            if pfn is None or pfn.has_loop():
+                rep["inconclusive"].append("constructor %s::%s not found (or has a loop)" % spec.prelude)
+                return rep
+            pex = S.Exec(pfn, arg_prefix="n")
+            pex.vec_root = spec.vec_root
+            paths = []
+            for q in pex.run():
+                if q.outcome is None or q.outcome[0] != "return":
+                    if q.outcome and q.outcome[0] == "unsupported":
+                        raise S.Unsupported("constructor: " + q.outcome[1])
+                    continue   # the constructor's own panics are not this kernel's subject
+                init = S.Path()
+                init.decls = q.decls
+                init.pc = list(q.pc)
+                init.nobj = q.nobj
+                for (r, pa), v in q.cells.items():
+                    if r == "L:_0":
+                        init.cells[("O:arg1", pa)] = v
+                    elif not r.startswith("L:"):
+                        init.cells[(r, pa)] = v
+                for (r, pa), tgt in q.links.items():
+                    if r == "L:_0":
+                        init.links[("O:arg1", pa)] = tgt
+                    elif not r.startswith("L:") and not tgt[0].startswith("L:"):
+                        init.links[(r, pa)] = tgt
+                ex2 = S.Exec(fn)
+                ex2.vec_root = spec.vec_root
+                ex2.counter = pex.counter + 1000
+                paths += ex2.run(init=init)
+                ex.decls = q.decls
     except S.Unsupported as e:
         rep["inconclusive"].append("symbolic execution: %s" % e)
         return rep
@@ -734,6 +945,11 @@ def part(prop):
                 continue
             fns = M.parse(text)
             for spec in specs:
+                rp = repr_problem(spec, text)
+                if rp:
+                    rep["lines"].append("INCONCLUSIVE property=%s mirsmt %s (overflow-checks=%s): %s" % (prop, spec.key, mode, rp))
+                    rep["inconclusive"] += 1
+                    continue
                 r = run_spec(spec, fns, mode, solver, cross)
                 rep["coverage"]["obligations"] += r["obligations"]
                 rep["coverage"]["discharged"] += r["discharged"]
